@@ -6,9 +6,10 @@ Import ListNotations.
 Open Scope string_scope.
 
 (* the constructors and zero_filled as repaired (F7, F8, F9, NumPy stacking axis): the configuration the runner
-   is given is the one the theorems are about *)
-Lemma ctor_cfg_tie : t_cfg (Nd (map L Gen_C08.cfg_code)) = cfg_repaired.
-Proof. reflexivity. Qed.
+   is given is one of those the theorems are about (they hold for either shape of MaskedTensor.matmul's mask
+   and of the index-list cast, which other owners' proposed fixes change) *)
+Lemma ctor_cfg_tie : exists mm eo, t_cfg (Nd (map L Gen_C08.cfg_code)) = cfg_repaired mm eo.
+Proof. eexists. eexists. reflexivity. Qed.
 Lemma ctor_facts_tie : Gen_C08.ctor_facts =
   [ "numpy: mask = confidence == 0; np.stack axis=-1";
     "torch: valid = confidence != 0; torch.stack([mask] * data.shape[-1], dim=3)";
